@@ -6,7 +6,6 @@ energy 480-614 over an arbitrary list of quadrature nodes, the StrainEnergy sett
 
 Tensors are index functions: a 3x3 array is `Fin 3 → Fin 3 → α`, a 3x3x3x3 array
 `Fin 3 → Fin 3 → Fin 3 → Fin 3 → α`, a 6x6 array `Fin 6 → Fin 6 → α`.
-`np.linalg.inv` of a 6x6 array is a parameter `inv6` of the functions that use it.
 -/
 import KawinV.Scalar
 import KawinV.Gen.C16Elastic
@@ -19,6 +18,26 @@ abbrev T4 (α : Type) := Fin 3 → Fin 3 → Fin 3 → Fin 3 → α
 abbrev M6 (α : Type) := Fin 6 → Fin 6 → α
 abbrev V6 (α : Type) := Fin 6 → α
 abbrev V3 (α : Type) := Fin 3 → α
+
+/-! ### evaluation hooks
+A tensor is a function, so a compiled program re-evaluates it at every index access.  Functions that
+build one tensor from another pass intermediate results through an `Eval`: semantically the
+identity (`Eval.id`, `Eval.Lawful`), in the Float driver "tabulate all entries once".  The boxes
+make the hooks strict (they return a structure, not a function).  `np.linalg.inv` of a 6x6 array
+is a parameter `inv6 : M6 α → Box6 α` of the functions that use it. -/
+structure Box2 (α : Type) where
+  f : T2 α
+structure Box4 (α : Type) where
+  f : T4 α
+structure Box6 (α : Type) where
+  f : M6 α
+structure Eval (α : Type) where
+  e2 : T2 α → Box2 α
+  e4 : T4 α → Box4 α
+  e6 : M6 α → Box6 α
+def Eval.id {α : Type} : Eval α := ⟨fun t => ⟨t⟩, fun t => ⟨t⟩, fun t => ⟨t⟩⟩
+def Eval.Lawful {α : Type} (ev : Eval α) : Prop :=
+  (∀ t, (ev.e2 t).f = t) ∧ (∀ t, (ev.e4 t).f = t) ∧ (∀ t, (ev.e6 t).f = t)
 
 /-! ### index maps of the rank conversions -/
 
@@ -178,24 +197,25 @@ def energyEllipsoid (cM S : T4 α) (eig : T2 α) (V : α) : α :=
   strainEnergy (mult42 cM (sub2 (mult42 S eig) eig)) eig V
 
 /-- `strainEnergyBohm` given S, V and the 4th-rank inversion `inv4` -/
-def energyBohm (inv4 : T4 α → T4 α) (cM cP S : T4 α) (eig : T2 α) (V : α) : α :=
-  let invTerm := inv4 (add4 (mult44 (sub4 cP cM) S) cM)
-  let multTerm := mult44 invTerm cP
-  let stressC := mult42 cM (mult42 (mult44 S multTerm) eig)
-  let stress0 := mult42 cM (mult42 multTerm eig)
+def energyBohm (ev : Eval α) (inv4 : T4 α → T4 α) (cM cP S : T4 α) (eig : T2 α) (V : α) : α :=
+  let invTerm := (ev.e4 (inv4 (ev.e4 (add4 (mult44 (sub4 cP cM) S) cM)).f)).f
+  let multTerm := (ev.e4 (mult44 invTerm cP)).f
+  let sm := (ev.e4 (mult44 S multTerm)).f
+  let stressC := (ev.e2 (mult42 cM (ev.e2 (mult42 sm eig)).f)).f
+  let stress0 := (ev.e2 (mult42 cM (ev.e2 (mult42 multTerm eig)).f)).f
   strainEnergy (sub2 stressC stress0) eig V
 
 /-- weights of the six index pairs in a double contraction (`_pairWeights`) -/
 def pairWeight (I : Fin 6) : α := if I.val < 3 then 1 else 2
 
 /-- `invert4rankTensor` (repaired): convert2To4( inv6( c2 ∘ m⊗m ) / m⊗m ), m = `_mandelVec` -/
-def invert4 (inv6 : M6 α → M6 α) (m : V6 α) (c4 : T4 α) : T4 α :=
+def invert4 (inv6 : M6 α → Box6 α) (m : V6 α) (c4 : T4 α) : T4 α :=
   let c2 : M6 α := fun I J => convert4To2 c4 I J * (m I * m J)
-  let x := inv6 c2
+  let x := (inv6 c2).f
   convert2To4 fun I J => x I J / (m I * m J)
 
 /-- `invert4rankTensor` before the repair: convert2To4(inv6(convert4To2 c4)) -/
-def invert4Old (inv6 : M6 α → M6 α) (c4 : T4 α) : T4 α := convert2To4 (inv6 (convert4To2 c4))
+def invert4Old (inv6 : M6 α → Box6 α) (c4 : T4 α) : T4 α := convert2To4 (inv6 (convert4To2 c4)).f
 
 /-- `_mandelVec` = sqrt([1,1,1,2,2,2]) -/
 def mandelVec [Trans α] : V6 α := fun I => Trans.sqrt (pairWeight I)
@@ -344,74 +364,77 @@ def init (d : Desc) : State α :=
     p := { cM4 := zero4, cM2 := zero6, cP4 := zero4, cP2 := zero6, stress := zero2, strain := zero2 } }
 
 /-- `_computeAppliedStrain` (repaired: divided by the pair weights) -/
-def appliedStrain (inv6 : M6 α → M6 α) (cM2 : M6 α) (stress : T2 α) : T2 α :=
+def appliedStrain (inv6 : M6 α → Box6 α) (cM2 : M6 α) (stress : T2 α) : T2 α :=
   if any2 stress && any6 cM2 then
-    let x := inv6 cM2
+    let x := (inv6 cM2).f
     let fs := rank2ToVec stress
     vecTo2 fun I => (sum6 fun J => x I J * fs J) / pairWeight I
   else zero2
 
 /-- what `update()` writes into the parameters when the matrix tensor is set: a function of the
 rotations, the unrotated tensors and the applied stress as supplied -/
-def paramsOf (inv6 : M6 α → M6 α) (rot rotP : T2 α) (cM cP : T4 α) (stress0 : T2 α) : Params α :=
-  let cM4 := rotate4 rot cM
-  let cM2 := convert4To2 cM4
-  let cP4 := if any4 cP then rotate4 rotP cP else cM4
-  let cP2 := if any4 cP then convert4To2 (rotate4 rotP cP) else cM2
-  let st := rotate2 rot stress0
-  { cM4 := cM4, cM2 := cM2, cP4 := cP4, cP2 := cP2, stress := st, strain := appliedStrain inv6 cM2 st }
+def paramsOf (ev : Eval α) (inv6 : M6 α → Box6 α) (rot rotP : T2 α) (cM cP : T4 α) (stress0 : T2 α) :
+    Params α :=
+  let cM4 := (ev.e4 (rotate4 rot cM)).f
+  let cM2 := (ev.e6 (convert4To2 cM4)).f
+  let hasP := any4 cP
+  let cP4 := (if hasP then ev.e4 (rotate4 rotP cP) else ⟨cM4⟩ : Box4 α).f
+  let cP2 := (if hasP then ev.e6 (convert4To2 cP4) else ⟨cM2⟩ : Box6 α).f
+  let st := (ev.e2 (rotate2 rot stress0)).f
+  { cM4 := cM4, cM2 := cM2, cP4 := cP4, cP2 := cP2, stress := st,
+    strain := (ev.e2 (appliedStrain inv6 cM2 st)).f }
 
 /-- `update()` -/
-def update (inv6 : M6 α → M6 α) (s : State α) : State α :=
+def update (ev : Eval α) (inv6 : M6 α → Box6 α) (s : State α) : State α :=
   if any4 s.cM then
     { s with desc := (if s.desc = Desc.constant then Desc.sphere else s.desc),
-             p := paramsOf inv6 s.rot s.rotP s.cM s.cP s.stress0 }
+             p := paramsOf ev inv6 s.rot s.rotP s.cM s.cP s.stress0 }
   else { s with desc := Desc.constant }
 
 /-- `_updateIfElasticTensorSet()` -/
-def updateIfSet (inv6 : M6 α → M6 α) (s : State α) : State α :=
-  if any4 s.cM then update inv6 s else s
+def updateIfSet (ev : Eval α) (inv6 : M6 α → Box6 α) (s : State α) : State α :=
+  if any4 s.cM then update ev inv6 s else s
 
 /-- one setter call; the Boolean is false when the call raises (state unchanged) -/
-def step (inv6 : M6 α → M6 α) (s : State α) : Op α → State α × Bool
+def step (ev : Eval α) (inv6 : M6 α → Box6 α) (s : State α) : Op α → State α × Bool
   | .setShape d => ({ s with desc := d }, true)
   | .setConstantEnergy e => ({ s with constE := e, desc := Desc.constant }, true)
-  | .setElasticTensor6 c => (update inv6 { s with cM := convert2To4 c }, true)
-  | .setElasticTensor4 c => (update inv6 { s with cM := c }, true)
-  | .setElasticConstants a b c => (update inv6 { s with cM := convert2To4 (elasticConstantToC a b c) }, true)
+  | .setElasticTensor6 c => (update ev inv6 { s with cM := convert2To4 c }, true)
+  | .setElasticTensor4 c => (update ev inv6 { s with cM := c }, true)
+  | .setElasticConstants a b c => (update ev inv6 { s with cM := convert2To4 (elasticConstantToC a b c) }, true)
   | .setModuli E nu G lam K M =>
     match moduliToC E nu G lam K M with
-    | some c => (update inv6 { s with cM := convert2To4 c }, true)
+    | some c => (update ev inv6 { s with cM := convert2To4 c }, true)
     | none => (s, false)
-  | .setPrecTensor6 c => (updateIfSet inv6 { s with cP := convert2To4 c }, true)
-  | .setPrecTensor4 c => (updateIfSet inv6 { s with cP := c }, true)
-  | .setPrecConstants a b c => (updateIfSet inv6 { s with cP := convert2To4 (elasticConstantToC a b c) }, true)
+  | .setPrecTensor6 c => (updateIfSet ev inv6 { s with cP := convert2To4 c }, true)
+  | .setPrecTensor4 c => (updateIfSet ev inv6 { s with cP := c }, true)
+  | .setPrecConstants a b c => (updateIfSet ev inv6 { s with cP := convert2To4 (elasticConstantToC a b c) }, true)
   | .setPrecModuli E nu G lam K M =>
     match moduliToC E nu G lam K M with
-    | some c => (updateIfSet inv6 { s with cP := convert2To4 c }, true)
+    | some c => (updateIfSet ev inv6 { s with cP := convert2To4 c }, true)
     | none => (s, false)
-  | .setRotation r => (updateIfSet inv6 { s with rot := r }, true)
-  | .setRotationPrec r => (updateIfSet inv6 { s with rotP := r }, true)
+  | .setRotation r => (updateIfSet ev inv6 { s with rot := r }, true)
+  | .setRotationPrec r => (updateIfSet ev inv6 { s with rotP := r }, true)
   | .setEigScalar e => ({ s with eig := fun i j => e * (if i = j then 1 else 0) }, true)
   | .setEigVec e => ({ s with eig := diag3 e }, true)
   | .setEigMat e => ({ s with eig := e }, true)
   | .setStressScalar x =>
     let m : T2 α := fun i j => x * (if i = j then 1 else 0)
-    (updateIfSet inv6 { s with stress0 := m, p := { s.p with stress := m } }, true)
+    (updateIfSet ev inv6 { s with stress0 := m, p := { s.p with stress := m } }, true)
   | .setStressVec v =>
-    (updateIfSet inv6 { s with stress0 := diag3 v, p := { s.p with stress := diag3 v } }, true)
+    (updateIfSet ev inv6 { s with stress0 := diag3 v, p := { s.p with stress := diag3 v } }, true)
   | .setStressMat m =>
-    (updateIfSet inv6 { s with stress0 := m, p := { s.p with stress := m } }, true)
+    (updateIfSet ev inv6 { s with stress0 := m, p := { s.p with stress := m } }, true)
 
-def run (inv6 : M6 α → M6 α) (s : State α) (ops : List (Op α)) : State α :=
-  ops.foldl (fun st op => (step inv6 st op).1) s
+def run (ev : Eval α) (inv6 : M6 α → Box6 α) (s : State α) (ops : List (Op α)) : State α :=
+  ops.foldl (fun st op => (step ev inv6 st op).1) s
 
 /-! the setters before the repair 187e553 (kept for the witness that the clause was false) -/
 
 /-- `update()` before the repair: the applied stress held in the parameters is rotated again -/
-def updateOld (inv6 : M6 α → M6 α) (s : State α) : State α :=
+def updateOld (ev : Eval α) (inv6 : M6 α → Box6 α) (s : State α) : State α :=
   if any4 s.cM then
-    let q := paramsOf inv6 s.rot s.rotP s.cM s.cP s.stress0
+    let q := paramsOf ev inv6 s.rot s.rotP s.cM s.cP s.stress0
     let st := rotate2 s.rot s.p.stress
     { s with desc := (if s.desc = Desc.constant then Desc.sphere else s.desc),
              p := { q with stress := st, strain := appliedStrain inv6 q.cM2 st } }
